@@ -47,7 +47,7 @@ impl KeyColl for KeyExpTree<KKey, i32, u64> {
         let s = self.verif_snapshot(|k, v| (k.k, k.exp, *v));
         let c = snap::canonical(&s, |p, out| {
             out.push(p.0 as u8);
-            out.push((p.1 - t).clamp(0, r + 1) as u8);
+            out.push(p.1.saturating_sub(t).clamp(0, r + 1) as u8);
         });
         let n = c.iter().filter(|&&b| b == snap::CANON_RED || b == snap::CANON_BLACK).count();
         Some((c, n))
@@ -75,10 +75,10 @@ impl KeyColl for KeyExpList<KKey, i32, u64> {
         let mut c = Vec::with_capacity(2 * entries.len() + 2);
         for (k, e) in &entries {
             c.push(*k as u8);
-            c.push((e - t).clamp(0, r + 1) as u8);
+            c.push(e.saturating_sub(t).clamp(0, r + 1) as u8);
         }
         c.push(0xFC);
-        c.push(if min_exp == i32::MAX { 0xEE } else { (min_exp - t).clamp(0, r + 1) as u8 });
+        c.push(if min_exp == i32::MAX { 0xEE } else { min_exp.saturating_sub(t).clamp(0, r + 1) as u8 });
         Some((c, entries.len()))
     }
 }
@@ -126,7 +126,7 @@ impl KOp {
     }
     fn code(&self) -> u64 {
         match *self {
-            KOp::Ins { k, exp, t } => mix(1, mix(k as u64, (exp - t) as u64)),
+            KOp::Ins { k, exp, t } => mix(1, mix(k as u64, exp.wrapping_sub(t) as u64)),
             KOp::Get { k, .. } => mix(2, k as u64),
             KOp::Fl { k, .. } => mix(3, k as u64),
             KOp::Fle { k, .. } => mix(4, k as u64),
@@ -264,7 +264,7 @@ impl<C: KeyColl> KeyExec<C> {
     fn model_hash(&self, t: i32) -> u64 {
         let mut h = 0u64;
         for e in self.live(t) {
-            h ^= mix(e.0 as u64, (e.1 - t) as u64);
+            h ^= mix(e.0 as u64, e.1.wrapping_sub(t) as u64);
         }
         h
     }
@@ -399,7 +399,7 @@ impl<C: KeyColl> KeyExec<C> {
                         format!("user comparison ({:?}) received stored key {} with expiration {} during an operation at time {}", ev.kind, a.0, a.1, t),
                     ));
                 }
-                if a.1 == t + 1 {
+                if a.1 == t.wrapping_add(1) {
                     rep.counters.inc("cb_keys_one_tick_from_expiry");
                 }
             }
@@ -796,12 +796,16 @@ pub struct KProf {
     pub hint: usize,
     pub sweep_every: usize,
     pub export_end: bool,
+    /// the clock starts near this value (extreme clocks: close to i32::MAX / i32::MIN)
+    pub t_base: i32,
+    /// one insert in `immortal` gets expiration i32::MAX (E::max_expiration()); 0 = never
+    pub immortal: u64,
 }
 
 pub const HINTS: [usize; 6] = [0, 1, 8, 9, 300, 17];
 
 pub fn profiles(thorough: bool) -> Vec<KProf> {
-    let base = KProf { name: "", u: 6, len: 60, r: 3, tick_num: 1, tick_den: 3, tick_jump: 2, w: [30, 10, 12, 12, 16, 2, 1], order: 0, hint: 8, sweep_every: 0, export_end: true };
+    let base = KProf { name: "", u: 6, len: 60, r: 3, tick_num: 1, tick_den: 3, tick_jump: 2, w: [30, 10, 12, 12, 16, 2, 1], order: 0, hint: 8, sweep_every: 0, export_end: true, t_base: 0, immortal: 0 };
     let big = if thorough { 4 } else { 1 };
     vec![
         KProf { name: "tiny-dense", u: 4, len: 50, r: 2, ..base.clone() },
@@ -816,6 +820,9 @@ pub fn profiles(thorough: bool) -> Vec<KProf> {
         KProf { name: "medium", u: 120, len: 900 * big, r: 40, tick_num: 1, tick_den: 3, tick_jump: 5, w: [40, 12, 12, 12, 14, 1, 1], ..base.clone() },
         KProf { name: "large", u: 1500, len: 5000 * big, r: 700, tick_num: 1, tick_den: 3, tick_jump: 30, w: [55, 10, 10, 10, 10, 1, 0], ..base.clone() },
         KProf { name: "clear-heavy", u: 8, len: 90, r: 3, w: [30, 10, 10, 10, 10, 4, 8], ..base.clone() },
+        KProf { name: "clock-near-max", u: 7, len: 90, r: 3, tick_num: 1, tick_den: 2, tick_jump: 2, t_base: i32::MAX - 400, immortal: 6, ..base.clone() },
+        KProf { name: "clock-near-min", u: 7, len: 90, r: 3, tick_num: 1, tick_den: 2, tick_jump: 2, t_base: i32::MIN + 4, immortal: 6, ..base.clone() },
+        KProf { name: "immortal-entries", u: 12, len: 140, r: 4, immortal: 3, ..base.clone() },
     ]
 }
 
@@ -823,7 +830,7 @@ pub fn profiles(thorough: bool) -> Vec<KProf> {
 pub fn gen_history(p: &KProf, rng: &mut Rng) -> (usize, Vec<KOp>) {
     let hint = if p.hint == 8 { *rng.pick(&HINTS) } else { p.hint };
     let mut ops = Vec::with_capacity(p.len + 8);
-    let mut t: i32 = rng.range(-3, 5) as i32;
+    let mut t: i32 = p.t_base + rng.range(-3, 5) as i32;
     // generator-side bookkeeping of expirations (contract enforcement): exp per key index, i32::MIN = never
     let mut exp: Vec<i32> = vec![i32::MIN; p.u as usize];
     let mut cursor: i32 = 0; // for ordered insertion
@@ -833,7 +840,7 @@ pub fn gen_history(p: &KProf, rng: &mut Rng) -> (usize, Vec<KOp>) {
         if stall > 0 {
             stall -= 1;
         } else if rng.chance(p.tick_num, p.tick_den) {
-            t += rng.range(1, p.tick_jump as i64) as i32;
+            t = t.saturating_add(rng.range(1, p.tick_jump as i64) as i32).min(i32::MAX - 1);
         } else if rng.chance(1, 40) {
             stall = rng.range(5, 25);
         }
@@ -891,8 +898,9 @@ pub fn gen_history(p: &KProf, rng: &mut Rng) -> (usize, Vec<KOp>) {
                     }
                 };
                 let d = if rng.chance(1, 3) { rng.range(0, 1.min(p.r as i64)) } else { rng.range(0, p.r as i64) } as i32;
-                exp[i as usize] = t + d;
-                ops.push(KOp::Ins { k: 2 * i + 1, exp: t + d, t });
+                let e = if p.immortal > 0 && rng.chance(1, p.immortal) { i32::MAX } else { t.saturating_add(d) };
+                exp[i as usize] = e;
+                ops.push(KOp::Ins { k: 2 * i + 1, exp: e, t });
             }
             1 => ops.push(KOp::Get { t, k: probe(rng, &exp) }),
             2 => ops.push(KOp::Fl { t, k: probe(rng, &exp) }),
@@ -906,7 +914,7 @@ pub fn gen_history(p: &KProf, rng: &mut Rng) -> (usize, Vec<KOp>) {
                 }
                 // the caller's clock may restart after a clear
                 if rng.chance(1, 2) {
-                    t = rng.range(-3, t as i64) as i32;
+                    t = rng.range(p.t_base as i64 - 3, t as i64) as i32;
                 }
             }
         }
@@ -920,7 +928,7 @@ pub fn gen_history(p: &KProf, rng: &mut Rng) -> (usize, Vec<KOp>) {
         // below all / equal to some / between / above all expirations
         let live: Vec<i32> = exp.iter().copied().filter(|&e| e > t).collect();
         let te = if live.is_empty() || rng.chance(1, 4) {
-            t + rng.range(0, 2) as i32
+            t.saturating_add(rng.range(0, 2) as i32)
         } else if rng.chance(1, 2) {
             *rng.pick(&live) // equal to some expiration
         } else {
